@@ -136,6 +136,7 @@ package stickycookie
 //@   requires v != nil
 //@   modifies nothing
 //@   nopanic
+//@   at_call strconv.ParseInt expiry_read_as_written: arg1 == 10 && arg2 == 64
 
 //@ extern bytes.LastIndexByte
 //@   params s c
